@@ -86,4 +86,8 @@ Definition segments_ok (o : out) : bool := forallb2 segment_ok (o_segs o) (o_len
 Definition tables_ok (c : cfg) (o : out) : bool :=
   forallb (fun t => let n := Z.of_nat (length t) in (c_min c <=? n) && (n <=? c_max c)) (o_seqs o).
 
+(* the upper bound alone (holds in both modes) *)
+Definition tables_max_ok (c : cfg) (o : out) : bool :=
+  forallb (fun t => Z.of_nat (length t) <=? c_max c) (o_seqs o).
+
 Definition limits_ok (c : cfg) (o : out) : bool := segments_ok o && tables_ok c o.
